@@ -24,6 +24,7 @@ FAMILIES = {
     "lrcow": {"src": "lrcow.cpp"},
     "locks": {"src": "locks.cpp"},
     "rcu": {"src": "rcu.cpp"},
+    "prims": {"src": "prims.cpp"},
 }
 
 EXPLORATION_NOTE = ("Trusted base: the vrt runtime's model of std::mutex/timed_mutex/shared_mutex/shared_timed_mutex/condition_variable/atomic "
@@ -59,6 +60,33 @@ PROPS = {
                 "registered before the erase. Exploration only.",
         "assumptions": ["'in use when the erase happened' is read as: the handle's first access returned before erase() was called", "4 fibers x 4/6 operations, lists of <= ~10 elements"],
         "stages": [{"family": "rcu", "flavour": "plain", "target": "C05", "cases": (600000, 8000000), "maxsec": (45, 420)}],
+    },
+    "C09": {
+        "level": "exploration",
+        "technique": "property-based testing over (participants x generations x drop plan x schedule x spurious wake-ups) on modelled mutex/condition_variable; oracle = per-generation arrival counters at every return, deadlock detection",
+        "design_ref": "DESIGN.md §5 C09",
+        "text": "N in 2..5 participants run G in 1..4 generations with generated drop-outs, pauses and spurious wake-ups; each return from the g-th wait is checked against the number of participants "
+                "that belong to generation g, and a lost wake-up shows up as a scheduler-level deadlock. Exploration only.",
+        "assumptions": ["participants that dropped never call the barrier again (class precondition)", "condition_variable model: notify with no waiter is lost, spurious wake-ups are generated"],
+        "stages": [{"family": "prims", "flavour": "plain", "target": "C09", "cases": (600000, 8000000), "maxsec": (40, 400)}],
+    },
+    "C10": {
+        "level": "exploration",
+        "technique": "property-based testing over (arrive/wait/arrive_and_wait programs x schedule x spurious wake-ups); oracle = number of started arrivals at every wait return, deadlock detection (lost wake-up, arrive that waits)",
+        "design_ref": "DESIGN.md §5 C10",
+        "text": "Generated programs of arrivers, waiters and arrive_and_wait participants (count 1..4, total arrivals >= count) run under generated schedules with the waiter's unlocked fast path, the "
+                "arrival and spurious wake-ups interleaved at every visible step. Exploration only.",
+        "assumptions": ["'after at least count arrive calls have taken place' is checked in its weakest sound form: that many arrive calls have started"],
+        "stages": [{"family": "prims", "flavour": "plain", "target": "C10", "cases": (800000, 10000000), "maxsec": (40, 400)}],
+    },
+    "C11": {
+        "level": "exploration",
+        "technique": "property-based testing over (controller op sequence x waiters x schedule x time-outs x spurious wake-ups); oracle = two-bit sequential model for the controller, interval rules for waiter results, deadlock detection",
+        "design_ref": "DESIGN.md §5 C11",
+        "text": "One controller issues generated activate/trigger/reset sequences checked call by call against a two-bit model; waiters snapshot the model at call time and their results are judged with "
+                "interval reasoning (abstaining when a controller call was in flight); lost wake-ups appear as deadlock. Exploration only.",
+        "assumptions": ["single controller (racing activate calls are not generated)", "untimed waits are generated only when the controller's final state releases them"],
+        "stages": [{"family": "prims", "flavour": "plain", "target": "C11", "cases": (800000, 10000000), "maxsec": (40, 400)}],
     },
     "C12": {
         "level": "exploration",
